@@ -705,6 +705,11 @@ pub const ALPHABETS: &[&[u32]] = &[
     // characters whose UTF-8 encoding contains the bytes 0x80 / 0xBF / 0xC2 next to the code points U+0080, U+00BF
     &[0x61, 0x80, 0x100, 0x4E00, 0x10000, 0xBF, 0xFF],
     &[0x7F, 0x80, 0x7FF, 0x800, 0xFFFF, 0x10000],
+    // members and near misses of the fixed sets: white space (U+180E, U+200B, U+0085, U+001C are NOT white space),
+    // line terminators (VT, FF, NEL, U+2027, U+202A are not), digits / word characters (edges of the ASCII runs, non-ASCII digits and letters)
+    &[0x20, 0x180E, 0x200B, 0x85, 0x1C, 0x2000, 0x200A, 0x202F, 0x205F, 0x0B, 0x0C, 0x61],
+    &[0x0A, 0x0B, 0x0C, 0x0D, 0x85, 0x2027, 0x2028, 0x2029, 0x202A, 0x61],
+    &[0x2F, 0x30, 0x39, 0x3A, 0x40, 0x41, 0x5A, 0x5B, 0x5F, 0x60, 0x61, 0x7A, 0x7B, 0x660, 0xAA, 0xB2],
 ];
 
 pub const PROPS: &[&str] = &[
